@@ -4,6 +4,7 @@ import (
 	"errors"
 	"fmt"
 	"runtime/metrics"
+	"strings"
 	"time"
 
 	"github.com/xujiajun/nutsdb"
@@ -35,6 +36,11 @@ type Options struct {
 	KeepLog       bool
 	NoModel       bool // do not judge op results (C20-style runs)
 	Sparse        bool
+	// BoundaryPL > 0: after every transaction / Merge / reopen step, when
+	// nothing is in flight, take that many power-loss images of the present
+	// state (sparse mode: its commits are not crash-atomic, known finding K3,
+	// but what was acknowledged with SyncEnable must survive a power loss).
+	BoundaryPL int
 }
 
 // StepTrace records what one step did.
@@ -47,11 +53,12 @@ type StepTrace struct {
 
 // Runner executes one program sequentially.
 type Runner struct {
-	W     *core.World
-	P     *prog.Program
-	Opt   Options
-	DB    *nutsdb.DB
-	DBOpt nutsdb.Options
+	W      *core.World
+	P      *prog.Program
+	Opt    Options
+	DB     *nutsdb.DB
+	DBOpt  nutsdb.Options
+	segNow int64 // SegmentSize in force (0 = the program's), see Step.Seg
 
 	M           *model.State
 	StateAt     []*model.State       // StateAt[i] = state after i acknowledged write transactions
@@ -261,7 +268,11 @@ func (r *Runner) syncFaultInStep(id int) bool {
 // segment (its commit must fail); long values that do fit do not count.
 func (r *Runner) hasBig(ops []prog.Op) bool {
 	for _, o := range ops {
-		if o.Big > 0 && int64(o.Big)+42 > r.P.Cfg.SegSize {
+		seg := r.segNow
+		if seg == 0 {
+			seg = r.P.Cfg.SegSize
+		}
+		if o.Big > 0 && int64(o.Big)+42 > seg {
 			return true
 		}
 	}
@@ -275,6 +286,37 @@ func (r *Runner) faultInStep(id int) bool {
 		}
 	}
 	return false
+}
+
+// boundaryImages takes power-loss images of the quiescent state after a step:
+// per Options.BoundaryPL, or those named by explicit faults of class "now"
+// (replay).
+func (r *Runner) boundaryImages(st *prog.Step) {
+	if r.Dead || r.Closed || (st.K != prog.STx && st.K != prog.SMerge && st.K != prog.SReopen) {
+		return
+	}
+	explicit := false
+	for _, f := range r.P.Faults {
+		if f.Kind != "crash" && f.Kind != "torn" && f.Kind != "powerloss" {
+			continue
+		}
+		explicit = true
+		if f.Class == "now" && f.StepID == st.ID {
+			r.W.SnapNow(f.Kind, f.Arg)
+			r.W.Stats.Faults[f.Kind]++
+		}
+	}
+	if explicit || r.Opt.BoundaryPL <= 0 {
+		return
+	}
+	for v := 0; v < r.Opt.BoundaryPL; v++ {
+		arg := v
+		if v >= 2 {
+			arg = 2 + int(core.Mix(r.W.Seed, uint64(st.ID), uint64(v))%(1<<20))
+		}
+		r.W.SnapNow("powerloss", arg)
+		r.W.Stats.Faults["powerloss"]++
+	}
 }
 
 // Run executes all steps.
@@ -293,6 +335,7 @@ func (r *Runner) Run() {
 		if r.P.Cfg.IdxMode == 2 && r.W.Stats.IOByKind["trunc"]-truncs >= 2 {
 			r.ND = true
 		}
+		r.boundaryImages(st)
 		r.W.EndStep()
 		if r.Opt.ObserveEvery || r.Opt.ObserveAt[st.ID] {
 			r.observeAndJudge(st.ID, "after "+st.K)
@@ -497,6 +540,11 @@ func diffObs(ops []prog.Op, a, b []prog.Res) string {
 }
 
 func (r *Runner) reopen(st *prog.Step, tr *StepTrace) {
+	if st.Seg > 0 {
+		// the application was reconfigured between two runs
+		r.DBOpt.SegmentSize = st.Seg
+		r.segNow = st.Seg
+	}
 	if r.Closed {
 		r.W.Clock.Advance(time.Millisecond)
 		r.open(st.ID)
@@ -544,6 +592,14 @@ func (r *Runner) merge(st *prog.Step, tr *StepTrace) {
 	}
 	if err != nil {
 		tr.Err = err.Error()
+		// Merge may refuse (fewer than two files, sparse mode, closed database)
+		// and may fail when an I/O fault is injected into it; any other failure
+		// is a Merge that cannot do its work on a healthy system
+		msg := err.Error()
+		legit := r.Closed || r.faultInStep(st.ID) || strings.Contains(msg, "at least 2") || strings.Contains(msg, "not support mode") || strings.Contains(msg, "db is closed")
+		if !legit {
+			r.viol("merge-failed", st.ID, -1, "Merge", "Merge failed although no fault was injected: %v", err)
+		}
 	}
 }
 
